@@ -353,6 +353,30 @@ pub fn run(ctx: &Ctx, rep: &mut Report) {
             }
         }
     }
+    // (b2) the over-long value among siblings of the same option number and
+    // behind other options: every value counts, wherever it stands and
+    // whatever its bytes are
+    for l in [65_804usize, 65_805, 70_000] {
+        for limit in [None, Some(200_000u64)] {
+            for shape in 0..5u8 {
+                let long = Blob::Pat { len: l as u32, seed: 9 };
+                let hi = Blob::Lit(vec![0xFF, 0xFF]);
+                let lo = Blob::Lit(vec![]);
+                let options = match shape {
+                    0 => vec![(3u16, long), (3, hi)],
+                    1 => vec![(3u16, hi), (3, long)],
+                    2 => vec![(3u16, lo), (3, long), (3, hi)],
+                    3 => vec![(1u16, hi), (3, Blob::Lit(vec![7])), (300, long)],
+                    _ => vec![(65_535u16, hi), (65_535, long)],
+                };
+                cases.push(Case {
+                    spec: MsgSpec { version: 1, mtype: 0, token: vec![], code: 0x02, mid: 78, options, payload: Blob::Lit(vec![]) },
+                    limit,
+                    pad: "none".into(),
+                });
+            }
+        }
+    }
     // (c) Empty-code messages that carry a payload field
     for plen in [1usize, 2, 1275, 1276, 1277, 1300, 70_000] {
         for limit in [Some(4u64), Some(5), Some(1280), None] {
